@@ -1,6 +1,7 @@
 package server
 
 import (
+	"Havoc/pkg/profile"
 	"errors"
 
 	"Havoc/pkg/db"
@@ -98,7 +99,12 @@ func H_c16_listener_steps() {
 		case 0:
 			t.ListenerStart(handlers.LISTENER_PIVOT_SMB, handlers.SMBConfig{Name: name, PipeName: "p" + name})
 		case 1:
-			t.ListenerStart(handlers.LISTENER_EXTERNAL, handlers.ExternalConfig{Name: name, Endpoint: "ep-" + name})
+			// endpoint spellings: plain for "a", with a leading slash for "b"
+			ep := "ep-" + name
+			if name == "b" {
+				ep = "/ep-" + name
+			}
+			t.ListenerStart(handlers.LISTENER_EXTERNAL, handlers.ExternalConfig{Name: name, Endpoint: ep})
 		case 2:
 			t.ListenerRemove(name)
 		}
@@ -139,5 +145,64 @@ func H_c16_listener_steps() {
 			verif_assert(owner, "no endpoint outlives its External listener")
 		}
 	}
+	verif_witness()
+}
+
+// H_c16_listener_edit: an edit of a running HTTP listener applies to the next request: after
+// ListenerEdit the running listener checks requests against exactly the edited user agent,
+// header list and URI list - also when the edit empties a list that was not empty - and an
+// edit that names another listener changes nothing.
+func H_c16_listener_edit() {
+	t := verifNewTeamserver(true)
+	t.Profile.Config.Demon = &profile.Demon{TrustXForwardedFor: nondet_bool("behind-redirector")}
+	run := &handlers.HTTP{}
+	run.Config.Name = "w"
+	run.Config.UserAgent = "UA1"
+	run.Config.Headers = []string{"X-A: 1"}
+	run.Config.Uris = []string{"/a", "/b"}
+	other := &handlers.HTTP{}
+	other.Config.Name = "v"
+	other.Config.Uris = []string{"/keep"}
+	t.Listeners = []*Listener{{Name: "w", Type: handlers.LISTENER_HTTP, Config: run}, {Name: "v", Type: handlers.LISTENER_HTTP, Config: other}}
+	edit := handlers.HTTPConfig{Name: []string{"w", "v", "zz"}[nondet_choice("edited-name", 3)]}
+	edit.UserAgent = []string{"", "UA2"}[nondet_choice("new-user-agent", 2)]
+	switch nondet_choice("new-headers", 3) {
+	case 1:
+		edit.Headers = []string{"X-B: 2"}
+	case 2:
+		edit.Headers = []string{"X-B: 2", "X-C: 3"}
+	}
+	switch nondet_choice("new-uris", 3) {
+	case 1:
+		edit.Uris = []string{"/c"}
+	case 2:
+		edit.Uris = []string{"/c", "/d"}
+	}
+	t.ListenerEdit(handlers.LISTENER_HTTP, edit)
+	same := func(a, b []string) bool {
+		if len(a) != len(b) {
+			return false
+		}
+		for i := range a {
+			if a[i] != b[i] {
+				return false
+			}
+		}
+		return true
+	}
+	target := map[string]*handlers.HTTP{"w": run, "v": other}[edit.Name]
+	if target != nil {
+		verif_assert(target.Config.UserAgent == edit.UserAgent, "the edited user agent applies to the next request")
+		verif_assert(same(target.Config.Headers, edit.Headers), "the edited header list applies to the next request (an emptied list too)")
+		verif_assert(same(target.Config.Uris, edit.Uris), "the edited URI list applies to the next request (an emptied list too)")
+	}
+	if edit.Name != "w" {
+		verif_assert(run.Config.UserAgent == "UA1", "an edit of another listener leaves this one alone (user agent)")
+		verif_assert(same(run.Config.Uris, []string{"/a", "/b"}), "an edit of another listener leaves this one alone (URIs)")
+	}
+	if edit.Name != "v" {
+		verif_assert(same(other.Config.Uris, []string{"/keep"}), "an edit of another listener leaves this one alone")
+	}
+	verif_assert(len(t.Listeners) == 2, "an edit neither adds nor removes listeners")
 	verif_witness()
 }
